@@ -847,7 +847,7 @@ func TestEngine(t *testing.T) {
 				runHandlersCase(rng, *flagThorough, out, st, seen)
 			}
 		case "cluster":
-			st.Rule = "3 or 5 real servers with their full run loops in one synctest bubble (virtual time; Heartbeat/Election/Lease 50ms, TrailingLogs 3, MaxAppendEntries 4), every RPC through a fault-injecting proxy (delay up to 40ms, drop up to 20%, duplicated AppendEntries up to 30%, directed link cuts, isolation); 40..120 [thorough: 100..400] steps of: client Apply 45% (3/4 at the leader), Barrier 5%, VerifyLeader 5%, partition 8%, heal 7%, network weather 5%, crash/restart 5%, user snapshot 5%, leadership transfer 3%, follower disk fault 3%, demote/promote 3%; then heal + restart all, 3 s quiet, final writes, dumps; every case counts as non-trivial (each elects a leader and commits)"
+			st.Rule = "3 or 5 real servers with their full run loops in one synctest bubble (virtual time; Heartbeat/Election/Lease 50ms, TrailingLogs 3, MaxAppendEntries 4), every RPC through a fault-injecting proxy (delay up to 40ms, drop up to 20%, duplicated AppendEntries up to 30%, directed link cuts, isolation); 40..120 [thorough: 100..400] steps of: client Apply 45% (3/4 at the leader), Barrier 5%, VerifyLeader 5%, partition 8%, heal 7%, network weather 5%, crash/restart 5%, user snapshot 5%, leadership transfer 3%, follower disk fault 3%, demote/promote 3%; then heal + restart all, 15 s quiet, final writes, dumps; 3 of 8 cases are litmus schedules instead (VerifyLeader x4, shutdown with calls part-way in, a fourth server joining a compacted cluster); flavours: protocol version 2 (1/6), commit-tracking stores with RestoreCommittedLogs (1/4), slow FSMs (1/3), batching FSM per lifetime (1/2), monotonic stores (1/3); every case counts as non-trivial (each elects a leader and commits)"
 			for k := 0; k < *flagN; k++ {
 				if *flagOnly >= 0 && k != *flagOnly {
 					continue
@@ -860,8 +860,10 @@ func TestEngine(t *testing.T) {
 			js, _ := json.MarshalIndent(st, "", " ")
 			os.WriteFile(*flagOut+".stats.json", js, 0o644)
 			os.Exit(17) // goroutines of the servers' proxies are still parked: a bubble cannot end cleanly
-		case "lease", "restore":
-			if *flagEngine == "lease" {
+		case "lease", "restore", "verify":
+			if *flagEngine == "verify" {
+				st.Rule = "the VerifyLeader litmus schedules only (leader 1 has a slow clock): non-voters reachable only (5 servers) / a heartbeat answer held in the network across an election (3) / an uncommitted demotion (4) / the answer to an InstallSnapshot held across an election (3); VerifyLeader on the old leader while another server already leads a higher term"
+			} else if *flagEngine == "lease" {
 				st.Rule = "3 or 5 real servers (optionally one non-voter), fault-free stretch of 2..22 virtual seconds with writes (leadership must not change), then the leader is cut off from every other voter at a recorded instant (a non-voter stays connected) and must give up leadership within 2 x LeaderLeaseTimeout and refuse writes afterwards"
 			} else {
 				st.Rule = "3 real servers, gap-tolerant or monotonic log stores; some writes; optionally one follower cut off; 0..3 writes in flight; user Restore on the leader with snapshot index 1 / last / last+1..5 / last/2 and 0..4 payloads; more writes; heal; 15 s quiet; final writes and dumps"
@@ -871,7 +873,9 @@ func TestEngine(t *testing.T) {
 					continue
 				}
 				r := rand.New(rand.NewSource(*flagSeed*1000003 + int64(k)))
-				if *flagEngine == "lease" {
+				if *flagEngine == "verify" {
+					runVerifyLitmus(r, out, st, k)
+				} else if *flagEngine == "lease" {
 					runLeaseCase(r, out, st, k)
 				} else {
 					runRestoreCase(r, out, st, k)
